@@ -419,8 +419,99 @@ pub fn run(_tier: &str) -> Report {
             }
         }
     }
+    // ---- more real endpoints, one value list each
+    {
+        use ruma_common::directory::RoomNetwork;
+        macro_rules! req_round_trip {
+            ($label:expr, $ty:ty, $mk:expr) => {{
+                n += 1;
+                let r = std::panic::catch_unwind(std::panic::AssertUnwindSafe(|| -> Result<(), Value> {
+                    let want = format!("{:?}", $mk);
+                    let h = $mk.try_into_http_request::<Vec<u8>>("https://h.tld", SendAccessToken::IfRequired("tok"), &[MatrixVersion::V1_1]).map_err(|e| json!({"stage": "encode", "error": e.to_string()}))?;
+                    let m1 = msg(&h);
+                    let none: [String; 0] = [];
+                    let back = <$ty>::try_from_http_request(h, &none).map_err(|e| json!({"endpoint": $label, "stage": "decode", "error": e.to_string(), "sent": want, "message": m1}))?;
+                    if format!("{back:?}") != want {
+                        return Err(json!({"endpoint": $label, "stage": "compare", "sent": want, "decoded": format!("{back:?}"), "message": m1}));
+                    }
+                    let again = back.try_into_http_request::<Vec<u8>>("https://h.tld", SendAccessToken::IfRequired("tok"), &[MatrixVersion::V1_1]).map_err(|e| json!({"stage": "re-encode", "error": e.to_string()}))?;
+                    if msg(&again) != m1 {
+                        return Err(json!({"endpoint": $label, "stage": "compare", "why": "re-encoding differs", "first": m1, "second": msg(&again)}));
+                    }
+                    Ok(())
+                }));
+                match r {
+                    Err(_) => fail(&mut f_panic, json!({"endpoint": $label, "observed": "panic"})),
+                    Ok(Err(e)) => fail(&mut f_req, json!({"failure": e})),
+                    Ok(Ok(())) => {}
+                }
+            }};
+        }
+        // federation GET publicRooms: the network selection travels in the query string
+        for network in [RoomNetwork::Matrix, RoomNetwork::All, RoomNetwork::ThirdParty("irc".to_owned())] {
+            for limit in [None, Some(10u32)] {
+                for since in [None, Some("t/1?x&y".to_owned())] {
+                    req_round_trip!("federation get_public_rooms", ruma_federation_api::directory::get_public_rooms::v1::Request, {
+                        let mut r = ruma_federation_api::directory::get_public_rooms::v1::Request::new();
+                        r.limit = limit.map(Into::into);
+                        r.since = since.clone();
+                        r.room_network = network.clone();
+                        r
+                    });
+                }
+            }
+        }
+        // push gateway notify: a device with and without tweaks
+        {
+            use ruma_common::push::Tweak;
+            use ruma_push_gateway_api::send_event_notification::v1::{Device, Notification, Request};
+            for tweaks in [vec![], vec![Tweak::Highlight(true)], vec![Tweak::Sound("default".to_owned()), Tweak::Highlight(false)]] {
+                for ndev in [1usize, 2] {
+                    req_round_trip!("push gateway send_event_notification", Request, {
+                        let mut d = Device::new("app".to_owned(), "key/1?x".to_owned());
+                        d.tweaks = tweaks.clone();
+                        Request::new(Notification::new(std::iter::repeat(d).take(ndev).collect()))
+                    });
+                }
+            }
+        }
+        // client sync: a response whose only update is in one kind of room
+        {
+            use ruma_client_api::sync::sync_events::v3::{InvitedRoom, JoinedRoom, KnockedRoom, LeftRoom, Response};
+            let room = ruma_common::OwnedRoomId::try_from("!r:s.org").unwrap();
+            for kind in ["none", "join", "leave", "invite", "knock"] {
+                n += 1;
+                let mk = || {
+                    let mut r = Response::new("batch/1".to_owned());
+                    match kind {
+                        "join" => { r.rooms.join.insert(room.clone(), JoinedRoom::new()); }
+                        "leave" => { r.rooms.leave.insert(room.clone(), LeftRoom::new()); }
+                        "invite" => { r.rooms.invite.insert(room.clone(), InvitedRoom::new()); }
+                        "knock" => { r.rooms.knock.insert(room.clone(), KnockedRoom::new()); }
+                        _ => {}
+                    }
+                    r
+                };
+                let r = std::panic::catch_unwind(std::panic::AssertUnwindSafe(|| -> Result<(), Value> {
+                    let want = format!("{:?}", mk());
+                    let h = mk().try_into_http_response::<Vec<u8>>().map_err(|e| json!({"stage": "encode", "error": e.to_string()}))?;
+                    let m1 = format!("{} {:?} {}", h.status(), h.headers(), String::from_utf8_lossy(h.body()));
+                    let back = Response::try_from_http_response(h).map_err(|e| json!({"endpoint": "client sync v3", "stage": "decode", "error": e.to_string(), "message": m1}))?;
+                    if format!("{back:?}") != want {
+                        return Err(json!({"endpoint": "client sync v3", "rooms": kind, "stage": "compare", "sent": want, "decoded": format!("{back:?}"), "message": m1}));
+                    }
+                    Ok(())
+                }));
+                match r {
+                    Err(_) => fail(&mut f_panic, json!({"endpoint": "client sync v3", "observed": "panic"})),
+                    Ok(Err(e)) => fail(&mut f_res, json!({"failure": e})),
+                    Ok(Ok(())) => {}
+                }
+            }
+        }
+    }
     Report {
-        bound: format!("3 synthetic endpoints (path x2, query incl. optional and multi-valued, header, JSON body incl. optional field, newtype body, raw body, status override 302): 11^3 (path, query, body) triples x 3 version sets x 3 optional-field shapes and the other endpoints' value lists: {n} round trips"),
+        bound: format!("3 synthetic endpoints (path x2, query incl. optional and multi-valued, header, JSON body incl. optional field, newtype body, raw body, status override 302): 11^3 (path, query, body) triples x 3 version sets x 3 optional-field shapes and the other endpoints' value lists; real endpoints: the public-rooms requests (client v3 POST, federation v1 POST and GET), push gateway notify, client sync v3 responses: {n} round trips"),
         cases: n,
         obligations: vec![
             ("requests_survive_the_http_wire_format_and_reencode_identically", n, f_req),
